@@ -96,7 +96,62 @@ def _resolved(fi, e, at):
     return resolve_arg(fi, e, at) if isinstance(e, ast.Name) else e
 
 
+ROOTS = ["/srv/www", "/srv/www/", "/"]
+ABS_NAMES = ["/etc/passwd", "/srv/wwwx/a", "/srv/www", "/srv/www/", "/srv/www/a", "/srv/wwwx", "/srv/ww", "/", "", "a//b", "/SRV/WWW/a", "\\etc\\passwd", "/srv/www/a/b.txt",
+             "/srv", "/srv/www.bak/x", "//etc/passwd"]
+
+
+def _containment_by_evaluation(ctx, fi):
+    """path_join_safe as a whole, decided by partial evaluation (engine/minieval.py) with the os.path functions it uses replaced by
+    their POSIX string definitions (posixpath.join / normpath - pure string functions of the standard library, nothing of the
+    package is run): on every root x file name of a family that has no dot components, the function returns exactly
+    normpath(join(root, name)) when that lies in the root (is the root, or begins with root + separator) and raises ValueError
+    when it does not - absolute names, sibling directories that share the prefix, other letter case.  None when the function is
+    outside the evaluator's fragment."""
+    import posixpath
+    from engine.minieval import MiniEval
+    from engine.index import Undecided
+    ab = lambda p_: posixpath.normpath(p_ if p_.startswith("/") else "/cwd/" + p_)
+    stubs = {"os.path.abspath": ab, "os.path.normpath": posixpath.normpath, "os.path.realpath": ab, "os.path.join": posixpath.join, "os.path.isabs": posixpath.isabs,
+             "os.path.commonpath": posixpath.commonpath, "os.path.commonprefix": posixpath.commonprefix, "os.path.dirname": posixpath.dirname, "os.path.basename": posixpath.basename}
+    out = {"cases": 0, "escaped": [], "refused_inside": [], "other": []}
+    try:
+        for root in ROOTS:
+            R = ab(root)
+            for name in GOOD_NAMES + ABS_NAMES:
+                out["cases"] += 1
+                want = posixpath.normpath(posixpath.join(R, name.replace("\\", "/")))
+                inside = want == R or want.startswith(R.rstrip("/") + "/")
+                r = MiniEval(ctx.repo, ctx.folder, fi, stubs=stubs).call([root, name])
+                rec = {"root": root, "name": name, "joined": want, "outcome": repr(r)}
+                if r[0] == "return":
+                    if not inside:
+                        out["escaped"].append(rec)
+                    elif r[1] != want:
+                        out["other"].append(rec)
+                elif r[0] == "raise" and r[1] == "ValueError":
+                    if inside:
+                        out["refused_inside"].append(rec)
+                else:
+                    out["other"].append(rec)
+    except Undecided:
+        return None
+    return out
+
+
 def r1(ctx):
+    fi = ctx.fn(PJS)
+    ev = _containment_by_evaluation(ctx, fi)
+    if ev is None:
+        return _r1_shape(ctx)
+    why = "path_join_safe evaluated (engine/minieval, os.path functions as their POSIX string definitions) on %d root x file name pairs" % ev["cases"]
+    ctx.check(not ev["escaped"], "C17.R1", fi, "every returned path is the root or lies beneath root + separator", why + ": an absolute file name replaces the root in os.path.join, "
+              "a sibling directory shares the root's prefix", witness=ev["escaped"][:3])
+    ctx.check(not ev["other"], "C17.R1", fi, "the returned value is abspath(join(root, filename)); refusals are ValueError", why, witness=ev["other"][:3])
+    ctx.check(not ev["refused_inside"], "C17.R1", fi, "names that stay inside the root are served", why, witness=ev["refused_inside"][:3])
+
+
+def _r1_shape(ctx):
     """edge cut: with every out-edge removed on which a leaf test establishes `R is root or lies beneath root + separator`,
     the return of R must be unreachable - whatever boolean structure (and / or / not, nested ifs, early raise) combines the tests"""
     fi = ctx.fn(PJS)
